@@ -36,6 +36,9 @@ var (
 
 // NewMMapRWManager returns a newly initialized MMapRWManager.
 func NewMMapRWManager(path string, capacity int64) (*MMapRWManager, error) {
+	if err := verifFS("create", path, capacity, nil); err != nil {
+		return nil, err
+	}
 	f, err := os.OpenFile(path, os.O_CREATE|os.O_RDWR, 0644)
 	defer f.Close()
 
@@ -53,6 +56,7 @@ func NewMMapRWManager(path string, capacity int64) (*MMapRWManager, error) {
 		return nil, err
 	}
 
+	verifMMapRegister(m, path)
 	return &MMapRWManager{m: m}, nil
 }
 
@@ -65,6 +69,9 @@ func (mm *MMapRWManager) WriteAt(b []byte, off int64) (n int, err error) {
 		return 0, ErrIndexOutOfBound
 	}
 
+	if err := verifFS("write", verifMMapPath(mm.m), off, b); err != nil {
+		return 0, err
+	}
 	return copy(mm.m[off:], b), nil
 }
 
@@ -82,10 +89,16 @@ func (mm *MMapRWManager) ReadAt(b []byte, off int64) (n int, err error) {
 
 // Sync synchronizes the mapping's contents to the file's contents on disk.
 func (mm *MMapRWManager) Sync() (err error) {
+	if err := verifFS("sync", verifMMapPath(mm.m), 0, nil); err != nil {
+		return err
+	}
 	return mm.m.Flush()
 }
 
 //Close deletes the memory mapped region, flushes any remaining changes
 func (mm *MMapRWManager) Close() (err error) {
+	if err := verifFS("close", verifMMapPath(mm.m), 0, nil); err != nil {
+		return err
+	}
 	return mm.m.Unmap()
 }
